@@ -9,7 +9,7 @@ import os
 import z3
 
 from .smt import And, Or, Not, Implies, iv, fresh_int, fresh_name, entails, check_sat, TRUE
-from .values import (V, SInt, SBool, SNone, NONE, SStr, STuple, Ref, SymRef, SExc, Opaque, HObj, HList, HBio, HDict,
+from .values import (V, SInt, SBool, SNone, NONE, SStr, STuple, Ref, SymRef, SExc, Opaque, HObj, HList, HBio, HDict, SMaybe,
                      SymSeqA, Unsupported, SOpt, _same_const, mk_win)
 from .shapes import (shape_of, join_shape, ConstShape, ListShape, WinShape, OptionShape, IntShape, BoolShape)
 
@@ -78,7 +78,8 @@ def diff_states(ex, a, b, lv):
             if not _same_val(oa.content, ob.content) or (oa.pos is None) != (ob.pos is None):
                 lv.objs.add(oid)
         elif isinstance(ob, HDict):
-            if set(ob.items) != set(oa.items) or any(not _same_val(oa.items[k], ob.items[k]) for k in ob.items):
+            if set(ob.items) != set(oa.items) or any(not _same_val(oa.items[k], ob.items[k]) for k in ob.items) \
+                    or (ob.dyn is None) != (oa.dyn is None) or (ob.dyn is not None and not ob.dyn["count"].eq(oa.dyn["count"])):
                 lv.objs.add(oid)
     for k, arr in b.cheap.items():
         if k not in a.cheap or not a.cheap[k].eq(arr):
@@ -192,8 +193,38 @@ def havoc_obj(ex, st, oid, name, declared, peek_obj):
         o.sym = sh.fresh_seq(st, name)
         return
     if isinstance(o, HDict):
-        raise Unsupported("dict mutated in a loop (%s)" % name)
+        return havoc_dict(ex, st, oid, name, [peek_obj] if peek_obj is not None else [])
     raise Unsupported("havoc of heap object %r" % (o,))
+
+
+def havoc_dict(ex, st, oid, name, peeks):
+    """keys whose value changes in some iteration get a fresh value of the joined shape; keys that appear in the body
+    become SMaybe (possibly absent); the dynamic region's store count becomes a fresh non-negative integer"""
+    o = st.heap[oid]
+    keys = list(o.items)
+    for pk in peeks:
+        keys += [k for k in pk.items if k not in keys]
+    for k in keys:
+        cur = o.items.get(k)
+        afters = [pk.items[k] for pk in peeks if k in pk.items]
+        changed = [a for a in afters if cur is None or not _same_val(cur, a)]
+        missing_somewhere = cur is None or any(k not in pk.items for pk in peeks)
+        if cur is not None and not changed and not isinstance(cur, SMaybe):
+            continue
+        vals = [x.inner if isinstance(x, SMaybe) else x for x in ([cur] if cur is not None else []) + changed]
+        sh = shape_of(vals[0])
+        for x in vals[1:]:
+            sh = join_shape(sh, shape_of(x))
+        fresh = sh.v if isinstance(sh, ConstShape) else sh.fresh(st, "%s[%r]" % (name, k))
+        if cur is None or isinstance(cur, SMaybe) or any(isinstance(a, SMaybe) for a in afters):
+            o.items[k] = SMaybe(z3.Bool(fresh_name("%s.has.%s" % (name, k))), fresh)
+        else:
+            o.items[k] = fresh
+    dyns = [d for d in [o.dyn] + [pk.dyn for pk in peeks] if d is not None]
+    if dyns:
+        c = z3.Int(fresh_name(name + ".dyn.count"))
+        st.assume(c >= 0)
+        o.dyn = {"prefix": dyns[0]["prefix"], "count": c, "last": None}
 
 
 def loc_name(ex, st, oid):
@@ -316,6 +347,9 @@ def run_loop(ex, s, st, kind, itv):
                     po = p.heap[oid]
                     break
             nm = loc_name(ex, entry, oid)
+            if isinstance(h.heap[oid], HDict):
+                havoc_dict(ex, h, oid, nm, [p.heap[oid] for p in round_peeks if oid in p.heap])
+                continue
             havoc_obj(ex, h, oid, nm, declared.get(nm), po)
         for k in sorted(lv.cheap):
             arr = entry.cheap.get(k)
@@ -612,6 +646,23 @@ def _fits_obj(ho, eo, name):
         else:
             if eo.sym is not None or len(eo.items) != len(ho.items):
                 raise Unsupported("list %s changes length but was not havoc'd symbolically" % name)
+    elif isinstance(ho, HDict):
+        for k, ev in eo.items.items():
+            if k not in ho.items:
+                raise Unsupported("dict %s gains key %r that was not anticipated at the loop head" % (name, k))
+            hv = ho.items[k]
+            if isinstance(ev, SMaybe) and not isinstance(hv, SMaybe):
+                raise Unsupported("dict %s key %r may disappear" % (name, k))
+            hin = hv.inner if isinstance(hv, SMaybe) else hv
+            ein = ev.inner if isinstance(ev, SMaybe) else ev
+            if _same_val(hin, ein):
+                continue
+            if isinstance(shape_of(hin), ConstShape):
+                raise Unsupported("dict %s[%r] modified but havoc'd as a constant" % (name, k))
+            if not shape_of(hin).accepts(ein):
+                raise Unsupported("dict %s[%r]: value after the body does not fit its havoc shape" % (name, k))
+        if (eo.dyn is not None) and ho.dyn is None:
+            raise Unsupported("dict %s gains a dynamic region inside the loop" % name)
 
 
 def _one_iteration(ex, s, head, kind, it, idx, probe_mode):
